@@ -131,7 +131,7 @@ def run(ctx):
         ctx.violation(dict(clause="design:" + res.violation), case=dict(state=res.trace[-1:]), check="design")
 
     # ---- code -> spec
-    texts = gen_texts(rng, ctx.pick(260, 3000), ctx.pick(500, 6000))
+    texts = gen_texts(rng, ctx.pick(260, 800), ctx.pick(500, 1500))
     texts = [t for t in texts if len(t) <= 40]
     # families that differ in the local segment only: numeric against alphanumeric parts (also the number 0), prefixes, leading zeros
     fam = []
@@ -150,7 +150,7 @@ def run(ctx):
             for y in f:
                 pairs.add((pos[x], pos[y]))
     # neighbours in a rough order are the interesting pairs: sort by the code's own key once to pick neighbours (selection only)
-    while len(pairs) < ctx.pick(40000, 120000):
+    while len(pairs) < ctx.pick(40000, 100000):
         a = rng.randrange(n)
         b = rng.randrange(n) if rng.random() < 0.5 else min(n - 1, max(0, a + rng.randrange(-4, 5)))
         pairs.add((a, b))
